@@ -27,6 +27,8 @@ PHRASE = {
     "typed": "depends",
     # an exception that is no assertion error whatever its type (TimeoutError: also what asyncio raises)
     "raise_timeout": "times out",
+    # a plain NotImplementedError (abstract helper, platform stub) is an exception like any other: error, never pending
+    "raise_notimpl": "hits a stub",
 }
 TYPED_RESULT = {"given": "pass", "when": "undefined", "then": "fail"}
 STEP_TYPES = ("given", "when", "then")
